@@ -122,7 +122,7 @@ func (c *BaseClient) signaller() (*signaller, error) {
 
 type signaller struct {
 	chConnAck  chan *pktConnAck
-	chPingResp chan *pktPingResp
+	chPingResp []chan *pktPingResp // waiting Pings, oldest first
 	chPubAck   map[uint16]chan *pktPubAck
 	chPubRec   map[uint16]chan *pktPubRec
 	chPubComp  map[uint16]chan *pktPubComp
@@ -137,11 +137,35 @@ func (s *signaller) ConnAck() chan *pktConnAck {
 
 	return s.chConnAck
 }
-func (s *signaller) PingResp() chan *pktPingResp {
-	s.mu.RLock()
-	defer s.mu.RUnlock()
+func (s *signaller) addPingResp(ch chan *pktPingResp) {
+	s.mu.Lock()
+	defer s.mu.Unlock()
 
-	return s.chPingResp
+	s.chPingResp = append(s.chPingResp, ch)
+}
+func (s *signaller) removePingResp(ch chan *pktPingResp) {
+	s.mu.Lock()
+	defer s.mu.Unlock()
+
+	for i, c := range s.chPingResp {
+		if c == ch {
+			s.chPingResp = append(s.chPingResp[:i:i], s.chPingResp[i+1:]...)
+			return
+		}
+	}
+}
+
+// PingResp takes the channel of the oldest Ping still waiting for its PINGRESP.
+func (s *signaller) PingResp() (chan *pktPingResp, bool) {
+	s.mu.Lock()
+	defer s.mu.Unlock()
+
+	if len(s.chPingResp) == 0 {
+		return nil, false
+	}
+	ch := s.chPingResp[0]
+	s.chPingResp = s.chPingResp[1:]
+	return ch, true
 }
 func (s *signaller) PubAck(id uint16) (chan *pktPubAck, bool) {
 	s.mu.RLock()
